@@ -1,81 +1,220 @@
 // Package vatomic replaces sync/atomic in instrumented code: every atomic operation is
-// preceded by a scheduling point and then performed with the real primitive.
+// preceded by a scheduling point, attributed to the happens-before cell of the object it
+// touches, and then performed with the real primitive.
 package vatomic
 
 import (
 	"sync/atomic"
+	"unsafe"
 
 	"verifmc/vrt"
 )
 
+func pt(p unsafe.Pointer, desc string) {
+	x := vrt.Cur()
+	if x == nil || x.Aborting() {
+		return
+	}
+	x.Yield(nil, desc)
+	x.Touch(x.CellFor(uintptr(p)), 0xa70)
+}
+
 func AddUint32(p *uint32, d uint32) uint32 {
-	vrt.PointAlways("atomic.AddUint32")
+	pt(unsafe.Pointer(p), "atomic.AddUint32")
 	return atomic.AddUint32(p, d)
 }
-func AddUint64(p *uint64, d uint64) uint64 {
-	vrt.PointAlways("atomic.AddUint64")
-	return atomic.AddUint64(p, d)
+
+func LoadUint32(p *uint32) uint32 {
+	pt(unsafe.Pointer(p), "atomic.LoadUint32")
+	return atomic.LoadUint32(p)
 }
-func AddInt32(p *int32, d int32) int32 {
-	vrt.PointAlways("atomic.AddInt32")
-	return atomic.AddInt32(p, d)
-}
-func AddInt64(p *int64, d int64) int64 {
-	vrt.PointAlways("atomic.AddInt64")
-	return atomic.AddInt64(p, d)
-}
-func LoadUint32(p *uint32) uint32 { vrt.PointAlways("atomic.LoadUint32"); return atomic.LoadUint32(p) }
-func LoadUint64(p *uint64) uint64 { vrt.PointAlways("atomic.LoadUint64"); return atomic.LoadUint64(p) }
-func LoadInt32(p *int32) int32    { vrt.PointAlways("atomic.LoadInt32"); return atomic.LoadInt32(p) }
-func LoadInt64(p *int64) int64    { vrt.PointAlways("atomic.LoadInt64"); return atomic.LoadInt64(p) }
+
 func StoreUint32(p *uint32, v uint32) {
-	vrt.PointAlways("atomic.StoreUint32")
+	pt(unsafe.Pointer(p), "atomic.StoreUint32")
 	atomic.StoreUint32(p, v)
 }
-func StoreUint64(p *uint64, v uint64) {
-	vrt.PointAlways("atomic.StoreUint64")
-	atomic.StoreUint64(p, v)
+
+func SwapUint32(p *uint32, v uint32) uint32 {
+	pt(unsafe.Pointer(p), "atomic.SwapUint32")
+	return atomic.SwapUint32(p, v)
 }
-func StoreInt32(p *int32, v int32) { vrt.PointAlways("atomic.StoreInt32"); atomic.StoreInt32(p, v) }
-func StoreInt64(p *int64, v int64) { vrt.PointAlways("atomic.StoreInt64"); atomic.StoreInt64(p, v) }
+
 func CompareAndSwapUint32(p *uint32, o, n uint32) bool {
-	vrt.PointAlways("atomic.CAS32")
+	pt(unsafe.Pointer(p), "atomic.CompareAndSwapUint32")
 	return atomic.CompareAndSwapUint32(p, o, n)
 }
+
+type Uint32 struct{ v atomic.Uint32 }
+
+func (i *Uint32) Add(d uint32) uint32 {
+	pt(unsafe.Pointer(i), "atomic.Uint32.Add")
+	return i.v.Add(d)
+}
+
+func (i *Uint32) Load() uint32 {
+	pt(unsafe.Pointer(i), "atomic.Uint32.Load")
+	return i.v.Load()
+}
+
+func (i *Uint32) Store(x uint32) {
+	pt(unsafe.Pointer(i), "atomic.Uint32.Store")
+	i.v.Store(x)
+}
+
+func (i *Uint32) CompareAndSwap(o, n uint32) bool {
+	pt(unsafe.Pointer(i), "atomic.Uint32.CompareAndSwap")
+	return i.v.CompareAndSwap(o, n)
+}
+
+func AddUint64(p *uint64, d uint64) uint64 {
+	pt(unsafe.Pointer(p), "atomic.AddUint64")
+	return atomic.AddUint64(p, d)
+}
+
+func LoadUint64(p *uint64) uint64 {
+	pt(unsafe.Pointer(p), "atomic.LoadUint64")
+	return atomic.LoadUint64(p)
+}
+
+func StoreUint64(p *uint64, v uint64) {
+	pt(unsafe.Pointer(p), "atomic.StoreUint64")
+	atomic.StoreUint64(p, v)
+}
+
+func SwapUint64(p *uint64, v uint64) uint64 {
+	pt(unsafe.Pointer(p), "atomic.SwapUint64")
+	return atomic.SwapUint64(p, v)
+}
+
 func CompareAndSwapUint64(p *uint64, o, n uint64) bool {
-	vrt.PointAlways("atomic.CAS64")
+	pt(unsafe.Pointer(p), "atomic.CompareAndSwapUint64")
 	return atomic.CompareAndSwapUint64(p, o, n)
 }
+
+type Uint64 struct{ v atomic.Uint64 }
+
+func (i *Uint64) Add(d uint64) uint64 {
+	pt(unsafe.Pointer(i), "atomic.Uint64.Add")
+	return i.v.Add(d)
+}
+
+func (i *Uint64) Load() uint64 {
+	pt(unsafe.Pointer(i), "atomic.Uint64.Load")
+	return i.v.Load()
+}
+
+func (i *Uint64) Store(x uint64) {
+	pt(unsafe.Pointer(i), "atomic.Uint64.Store")
+	i.v.Store(x)
+}
+
+func (i *Uint64) CompareAndSwap(o, n uint64) bool {
+	pt(unsafe.Pointer(i), "atomic.Uint64.CompareAndSwap")
+	return i.v.CompareAndSwap(o, n)
+}
+
+func AddInt32(p *int32, d int32) int32 {
+	pt(unsafe.Pointer(p), "atomic.AddInt32")
+	return atomic.AddInt32(p, d)
+}
+
+func LoadInt32(p *int32) int32 {
+	pt(unsafe.Pointer(p), "atomic.LoadInt32")
+	return atomic.LoadInt32(p)
+}
+
+func StoreInt32(p *int32, v int32) {
+	pt(unsafe.Pointer(p), "atomic.StoreInt32")
+	atomic.StoreInt32(p, v)
+}
+
+func SwapInt32(p *int32, v int32) int32 {
+	pt(unsafe.Pointer(p), "atomic.SwapInt32")
+	return atomic.SwapInt32(p, v)
+}
+
 func CompareAndSwapInt32(p *int32, o, n int32) bool {
-	vrt.PointAlways("atomic.CAS32")
+	pt(unsafe.Pointer(p), "atomic.CompareAndSwapInt32")
 	return atomic.CompareAndSwapInt32(p, o, n)
 }
 
 type Int32 struct{ v atomic.Int32 }
 
-func (i *Int32) Add(d int32) int32 { vrt.PointAlways("atomic.Int32.Add"); return i.v.Add(d) }
-func (i *Int32) Load() int32       { vrt.PointAlways("atomic.Int32.Load"); return i.v.Load() }
-func (i *Int32) Store(x int32)     { vrt.PointAlways("atomic.Int32.Store"); i.v.Store(x) }
+func (i *Int32) Add(d int32) int32 {
+	pt(unsafe.Pointer(i), "atomic.Int32.Add")
+	return i.v.Add(d)
+}
+
+func (i *Int32) Load() int32 {
+	pt(unsafe.Pointer(i), "atomic.Int32.Load")
+	return i.v.Load()
+}
+
+func (i *Int32) Store(x int32) {
+	pt(unsafe.Pointer(i), "atomic.Int32.Store")
+	i.v.Store(x)
+}
+
+func (i *Int32) CompareAndSwap(o, n int32) bool {
+	pt(unsafe.Pointer(i), "atomic.Int32.CompareAndSwap")
+	return i.v.CompareAndSwap(o, n)
+}
+
+func AddInt64(p *int64, d int64) int64 {
+	pt(unsafe.Pointer(p), "atomic.AddInt64")
+	return atomic.AddInt64(p, d)
+}
+
+func LoadInt64(p *int64) int64 {
+	pt(unsafe.Pointer(p), "atomic.LoadInt64")
+	return atomic.LoadInt64(p)
+}
+
+func StoreInt64(p *int64, v int64) {
+	pt(unsafe.Pointer(p), "atomic.StoreInt64")
+	atomic.StoreInt64(p, v)
+}
+
+func SwapInt64(p *int64, v int64) int64 {
+	pt(unsafe.Pointer(p), "atomic.SwapInt64")
+	return atomic.SwapInt64(p, v)
+}
+
+func CompareAndSwapInt64(p *int64, o, n int64) bool {
+	pt(unsafe.Pointer(p), "atomic.CompareAndSwapInt64")
+	return atomic.CompareAndSwapInt64(p, o, n)
+}
 
 type Int64 struct{ v atomic.Int64 }
 
-func (i *Int64) Add(d int64) int64 { vrt.PointAlways("atomic.Int64.Add"); return i.v.Add(d) }
-func (i *Int64) Load() int64       { vrt.PointAlways("atomic.Int64.Load"); return i.v.Load() }
-func (i *Int64) Store(x int64)     { vrt.PointAlways("atomic.Int64.Store"); i.v.Store(x) }
+func (i *Int64) Add(d int64) int64 {
+	pt(unsafe.Pointer(i), "atomic.Int64.Add")
+	return i.v.Add(d)
+}
 
-type Uint32 struct{ v atomic.Uint32 }
+func (i *Int64) Load() int64 {
+	pt(unsafe.Pointer(i), "atomic.Int64.Load")
+	return i.v.Load()
+}
 
-func (i *Uint32) Add(d uint32) uint32 { vrt.PointAlways("atomic.Uint32.Add"); return i.v.Add(d) }
-func (i *Uint32) Load() uint32        { vrt.PointAlways("atomic.Uint32.Load"); return i.v.Load() }
-func (i *Uint32) Store(x uint32)      { vrt.PointAlways("atomic.Uint32.Store"); i.v.Store(x) }
+func (i *Int64) Store(x int64) {
+	pt(unsafe.Pointer(i), "atomic.Int64.Store")
+	i.v.Store(x)
+}
 
-type Uint64 struct{ v atomic.Uint64 }
-
-func (i *Uint64) Add(d uint64) uint64 { vrt.PointAlways("atomic.Uint64.Add"); return i.v.Add(d) }
-func (i *Uint64) Load() uint64        { vrt.PointAlways("atomic.Uint64.Load"); return i.v.Load() }
-func (i *Uint64) Store(x uint64)      { vrt.PointAlways("atomic.Uint64.Store"); i.v.Store(x) }
+func (i *Int64) CompareAndSwap(o, n int64) bool {
+	pt(unsafe.Pointer(i), "atomic.Int64.CompareAndSwap")
+	return i.v.CompareAndSwap(o, n)
+}
 
 type Bool struct{ v atomic.Bool }
 
-func (b *Bool) Load() bool   { vrt.PointAlways("atomic.Bool.Load"); return b.v.Load() }
-func (b *Bool) Store(x bool) { vrt.PointAlways("atomic.Bool.Store"); b.v.Store(x) }
+func (b *Bool) Load() bool {
+	pt(unsafe.Pointer(b), "atomic.Bool.Load")
+	return b.v.Load()
+}
+
+func (b *Bool) Store(x bool) {
+	pt(unsafe.Pointer(b), "atomic.Bool.Store")
+	b.v.Store(x)
+}
